@@ -208,6 +208,30 @@ def run_c08(pid):
     parts = [[] for _ in range(8)]
     for i, k in enumerate(sorted(bykey)):
         parts[i % 8].extend(bykey[k])
+    # ---- the file depends on nothing else: encoders used one after the other in the same process and thread, with option sets that
+    # differ in one setting (window, LPC order, correlation, partition order) over the same input and block length, in an order in
+    # which every variant runs first, right after every other variant, and right after itself; plus a shorter stream in between
+    hist = []
+    base = {"block_size": 64, "max_lpc": 8, "mid_side": True, "fast_corr": False, "window": "tukey"}
+    variants = [dict(base), dict(base, window="hann"), dict(base, window="rect"), dict(base, window="tukey:0.25"), dict(base, max_lpc=12),
+                dict(base, max_lpc=-1), dict(base, mid_side=False), dict(base, fast_corr=True), dict(base, max_po=0)]
+    for hi, (ch, bps, frames) in enumerate(((1, 16, 64 * 3), (2, 16, 64 * 3), (2, 24, 64 * 4 + 7))):     # whole blocks: the last block analysed has the length of the next first one
+        order = []
+        nv = len(variants)
+        for a in range(nv):                       # a, b, a for every ordered pair: each variant is met fresh, after itself and after each other
+            for b in range(nv):
+                order += [a, b]
+        order = order + order[::-1]
+        if t == "quick":
+            order = order[hi::3][:70] + list(range(nv)) + list(range(nv))[::-1]
+        fe = FES[hi % len(FES)]
+        for n_, vi in enumerate(order):
+            hist.append({"fe": fe, "rate": 44100, "bps": bps, "channels": ch, "opts": variants[vi], "pcm": pcm_spec("sine", 9100 + hi, frames),
+                         "writes": [frames * upf_of(fe, ch, bps)], "pcm_id": 9100 + hi, "opts_id": 100 + vi, "tag": "history"})
+            if n_ % 5 == 4:                       # another stream of another length in between
+                hist.append({"fe": fe, "rate": 44100, "bps": bps, "channels": ch, "opts": variants[(vi + 3) % nv], "pcm": pcm_spec("walk", 9200 + hi, 100),
+                             "writes": [100 * upf_of(fe, ch, bps)], "pcm_id": 9200 + hi, "opts_id": 100 + (vi + 3) % nv, "tag": "history"})
+    parts.append(hist)
     traces = []
 
     def drive(ip):
@@ -215,7 +239,7 @@ def run_c08(pid):
         tp = os.path.join(wd, "trace_%d.ndjson" % i)
         return tp, run_drive("writer", {"out": tp, "jobs": part}, wd, tag=str(i))
 
-    outs = parallel(drive, [(i, p) for i, p in enumerate(parts) if p], n=8)
+    outs = parallel(drive, [(i, p) for i, p in enumerate(parts) if p], n=9)
     runs = sum(o[1]["runs"] for o in outs)
     events = sum(o[1]["events"] for o in outs)
     validate(pid, [o[0] for o in outs], wd, v, stats)
